@@ -21,6 +21,8 @@ type Borrowed struct {
 	CloseCalls int
 	closedCh   chan struct{}
 	OnClosed   func(*Borrowed)
+	// CloseErr is what the first Close reports (the connection is closed all the same): a fault.
+	CloseErr error
 	// OnLocalAddr is called inside LocalAddr() (a trap point).
 	OnLocalAddr func(*Borrowed)
 }
@@ -52,12 +54,13 @@ func (b *Borrowed) Close() error {
 	b.closed = true
 	close(b.closedCh)
 	f := b.OnClosed
+	err := b.CloseErr
 	b.mu.Unlock()
 	if f != nil {
 		f(b)
 	}
 
-	return nil
+	return err
 }
 func (b *Borrowed) IsClosed() bool {
 	b.mu.Lock()
